@@ -18,6 +18,7 @@ const (
 	stExpired
 	stIKRevoked
 	stSKRevoked
+	stBothRevoked
 	numStates
 )
 
@@ -41,24 +42,39 @@ func Race() {
 		procs[i] = p
 	}
 	start := vx.Choice("start", vx.Param("states"))
+	// the last process may be cold (started after the keys were created) while the others are warm
+	lastCold := start != stCold && vx.Choice("last_process_cold", 2) == 1
 	t0, _ := vx.Now()
 	if start != stCold {
 		vx.ClockFreeze(true)
-		for _, p := range procs {
+		for i, p := range procs {
+			if lastCold && i == len(procs)-1 {
+				continue
+			}
 			_, err := p.s.Encrypt(env.Ctx, []byte{0})
 			vx.Assert("C14.setup_ok", err == nil)
 		}
 		vx.ClockFreeze(false)
+	}
+	// revocations are noticed by warm processes only after the revoke-check interval: race either inside it
+	// (warm caches still trusted) or after it
+	late := int64(0)
+	if start >= stIKRevoked && vx.Choice("after_interval", 2) == 1 {
+		late = 2*secs(pol.Revoke) + 2
 	}
 	switch start {
 	case stExpired:
 		vx.ClockMin(t0 + secs(pol.Expire) + secs(pol.Precision) + 2)
 	case stIKRevoked:
 		e.Store.Latest(env.IKID("p0")).Revoked = true
-		vx.ClockMin(t0 + 2*secs(pol.Revoke) + 2)
+		vx.ClockMin(t0 + late)
 	case stSKRevoked:
 		e.Store.Latest(env.SKID()).Revoked = true
-		vx.ClockMin(t0 + 2*secs(pol.Revoke) + 2)
+		vx.ClockMin(t0 + late)
+	case stBothRevoked:
+		e.Store.Latest(env.IKID("p0")).Revoked = true
+		e.Store.Latest(env.SKID()).Revoked = true
+		vx.ClockMin(t0 + late)
 	}
 	if vx.Param("freeze") == 1 {
 		vx.Now()
